@@ -5,7 +5,7 @@ from __future__ import annotations
 import ast
 from dataclasses import dataclass
 
-from ..core import AnalysisError, Check, Scope, call_name, dotted, is_self_attr, norm, walk_no_nested
+from ..core import AnalysisError, Check, Scope, loop_as_listcomp, call_name, dotted, is_self_attr, norm, strip_docstring, walk_no_nested
 from ..interp import PathInterp
 from ..variants import Variant
 
@@ -376,59 +376,145 @@ class C02(Check):
         cq = checker.name
         sc = Scope(checker)
         raises = [r for r in ast.walk(checker) if isinstance(r, ast.Raise) and MISS in norm(r)]
-        # (a) all_available = copy of available, updated by every element's provided, unfiltered
+        # (a) all_available = copy of available united with every element's provided, unfiltered
         avail_param, elems_param = [a.arg for a in checker.args.args][:2]
-        all_av = None
-        for s in checker.body:
-            if isinstance(s, ast.Assign) and isinstance(s.targets[0], ast.Name) and avail_param in {n.id for n in ast.walk(s.value) if isinstance(n, ast.Name)}:
-                all_av = s.targets[0].id
-                copy_ok = norm(s.value) in (f"{avail_param}.copy()", f"set({avail_param})", f"{avail_param} | set()")
-                union_inline = "provided" in norm(s.value)
-                break
-        if all_av is None:
+
+        def all_provided(e: ast.AST) -> bool:
+            """e denotes the `provided` sets of every element, unfiltered: `*(el.provided for el in elements)` and the like."""
+            if isinstance(e, ast.Starred):
+                e = e.value
+            if isinstance(e, (ast.GeneratorExp, ast.ListComp)) and len(e.generators) == 1 and not e.generators[0].ifs \
+                    and norm(e.generators[0].iter) == elems_param and isinstance(e.generators[0].target, ast.Name):
+                return norm(e.elt) == f"{e.generators[0].target.id}.provided"
+            return False
+
+        def set_value(e: ast.AST, env: dict[str, frozenset]) -> frozenset | None:
+            """abstract value of a set expression over the atoms A (a *copy* of available), A! (available itself), P (all provided)."""
+            if isinstance(e, ast.Name):
+                return frozenset({"A!"}) if e.id == avail_param else env.get(e.id)
+            if isinstance(e, ast.Call) and norm(e.func) in (f"{avail_param}.copy", "set", "frozenset") and (not e.args or norm(e.args[0]) == avail_param) and not e.keywords:
+                if norm(e.func) in ("set", "frozenset") and not e.args:
+                    return frozenset()
+                return frozenset({"A"})
+            if isinstance(e, ast.Call) and isinstance(e.func, ast.Attribute) and e.func.attr == "union" and not e.keywords:
+                base = set_value(e.func.value, env)
+                if base is None:
+                    return None
+                out = {x.rstrip("!") for x in base}
+                for a_ in e.args:
+                    if all_provided(a_):
+                        out.add("P")
+                    else:
+                        v_ = set_value(a_, env)
+                        if v_ is None:
+                            return None
+                        out |= {x.rstrip("!") for x in v_}
+                return frozenset(out)
+            if isinstance(e, ast.BinOp) and isinstance(e.op, ast.BitOr):
+                l_, r_ = set_value(e.left, env), set_value(e.right, env)
+                return None if l_ is None or r_ is None else frozenset({x.rstrip("!") for x in l_ | r_})
+            if isinstance(e, ast.SetComp) and len(e.generators) == 2 and not any(g.ifs for g in e.generators) and norm(e.generators[0].iter) == elems_param \
+                    and norm(e.generators[1].iter) == f"{norm(e.generators[0].target)}.provided" and norm(e.elt) == norm(e.generators[1].target):
+                return frozenset({"P"})
+            return None
+
+        env: dict[str, frozenset] = {}
+        for s in strip_docstring(checker.body):
+            if isinstance(s, ast.Assign) and isinstance(s.targets[0], ast.Name):
+                v_ = set_value(s.value, env)
+                if v_ is not None:
+                    env[s.targets[0].id] = v_
+            elif isinstance(s, ast.AugAssign) and isinstance(s.target, ast.Name) and isinstance(s.op, ast.BitOr) and s.target.id in env:
+                v_ = set_value(s.value, env)
+                if v_ is not None:
+                    env[s.target.id] = frozenset(env[s.target.id] | {x.rstrip("!") for x in v_})
+            elif isinstance(s, ast.For) and norm(s.iter) == elems_param and isinstance(s.target, ast.Name):
+                el = s.target.id
+                for b_ in s.body:
+                    t_ = norm(b_)
+                    for name in list(env):
+                        if t_ in (f"{name}.update({el}.provided)", f"{name} |= {el}.provided"):
+                            env[name] = frozenset(env[name] | {"P"})
+        cands = [n for n, v_ in env.items() if "P" in v_ or v_ & {"A", "A!"}]
+        # the set the payload is computed against
+        used_sets = set()
+        for n in ast.walk(checker):
+            st = subset_test(n) if isinstance(n, ast.expr) else None
+            if st:
+                used_sets.add(st[1])
+            if isinstance(n, ast.Call) and isinstance(n.func, ast.Attribute) and n.func.attr == "difference" and norm(n.func.value).endswith(".required") and n.args:
+                used_sets.add(norm(n.args[0]))
+            if isinstance(n, ast.BinOp) and isinstance(n.op, ast.Sub) and norm(n.left).endswith(".required"):
+                used_sets.add(norm(n.right))
+        if len(used_sets) > 1:
+            # several sets are compared against: the providable set is the one built from the elements (payload checked against it below)
+            best = [u for u in sorted(used_sets) if "P" in (env.get(u) or ())]
+            used_sets = set(best[:1]) if best else used_sets
+        if len(used_sets) != 1 or not cands:
             self.undecided_ob("R5", MOD, cq, "all-available", checker, "construction of the providable-name set not recognised")
             return
-        upd_ok = False
-        for s in checker.body:
-            if isinstance(s, ast.For) and norm(s.iter) == elems_param and isinstance(s.target, ast.Name):
-                el = s.target.id
-                body_txt = [norm(b) for b in s.body]
-                if body_txt == [f"{all_av}.update({el}.provided)"] or body_txt == [f"{all_av} |= {el}.provided"]:
-                    upd_ok = True
-        if (copy_ok and upd_ok) or union_inline:
-            self.holds("R5", MOD, cq, "all-available", checker,
-                       f"{all_av} = {avail_param} U provided of every element (unfiltered loop over {elems_param})")
-            if not copy_ok and not union_inline:
-                pass
+        all_av = used_sets.pop()
+        val = frozenset({"A!"}) if all_av == avail_param else env.get(all_av)
+        if val is None:
+            self.undecided_ob("R5", MOD, cq, "all-available", checker, f"`{all_av}` is not a recognised set construction")
+            return
+        if val == frozenset({"A", "P"}):
+            self.holds("R5", MOD, cq, "all-available", checker, f"{all_av} = copy of {avail_param} U provided of every element (unfiltered)")
         else:
             why = ("the providable set aliases the caller's `available` (no copy): every name becomes available before sorting"
-                   if not copy_ok else "not every element's `provided` is added to the providable set")
+                   if "A!" in val else "not every element's `provided` is added to the providable set" if "P" not in val
+                   else f"the caller's `{avail_param}` is not part of the providable set")
             self.violated("R5", MOD, cq, "all-available", checker, why,
                           witness="a complete graph is reported as missing names, or an incomplete one passes the check")
-        # (b) payload
+
+        # (b) payload: {el.name: sorted(el.required - ALL)} for exactly the elements whose difference is non-empty
+        def is_diff(e: ast.AST, el: str) -> bool:
+            return norm(e) in (f"{el}.required.difference({all_av})", f"{el}.required - {all_av}")
+
+        def nonempty_guard(tests: list[tuple[ast.AST, bool]], el: str):
+            """-> (ok, walrus name or None): the tests say exactly 'required is not a subset of ALL'."""
+            if len(tests) != 1:
+                return False, None
+            g, pol = tests[0]
+            st = subset_test(g)
+            if st and st[0] == el and st[1] == all_av and st[2] != pol:
+                return True, None
+            if pol and isinstance(g, ast.NamedExpr) and is_diff(g.value, el):
+                return True, g.target.id
+            if pol and is_diff(g, el):
+                return True, None
+            return False, None
+
         ok_payload = False
         ok_guard = False
+        self.payload_node = checker
         for n in ast.walk(checker):
             if isinstance(n, ast.Assign) and isinstance(n.targets[0], ast.Subscript):
-                v = n.value
-                txt = norm(v)
                 key = norm(n.targets[0].slice)
-                for g, pol in sc.guards(n):
-                    st = subset_test(g)
-                    if st and st[2] != pol and st[1] == all_av:
-                        ok_guard = True
-                        el = st[0]
-                        if key == f"{el}.name" and txt in (
-                            f"sorted({el}.required.difference({all_av}))",
-                            f"sorted({el}.required - {all_av})",
-                        ):
-                            ok_payload = True
-                        self.payload_node = n
+                el = key[:-len(".name")] if key.endswith(".name") else None
+                if el is None:
+                    continue
+                self.payload_node = n
+                g_ok, wal = nonempty_guard(sc.guards(n), el)
+                ok_guard = ok_guard or g_ok
+                v = n.value
+                if g_ok and isinstance(v, ast.Call) and norm(v.func) == "sorted" and len(v.args) == 1 and not v.keywords \
+                        and (is_diff(v.args[0], el) or (wal is not None and norm(v.args[0]) == wal)):
+                    ok_payload = True
+            elif isinstance(n, ast.DictComp) and len(n.generators) == 1 and norm(n.generators[0].iter) == elems_param and isinstance(n.generators[0].target, ast.Name):
+                el = n.generators[0].target.id
+                self.payload_node = n
+                g_ok, wal = nonempty_guard([(t, True) for t in n.generators[0].ifs], el)
+                ok_guard = ok_guard or g_ok
+                v = n.value
+                if g_ok and norm(n.key) == f"{el}.name" and isinstance(v, ast.Call) and norm(v.func) == "sorted" and len(v.args) == 1 and not v.keywords \
+                        and (is_diff(v.args[0], el) or (wal is not None and norm(v.args[0]) == wal)):
+                    ok_payload = True
         if ok_guard and ok_payload:
             self.holds("R5", MOD, cq, "payload", self.payload_node,
                        "per element: sorted(required - providable), recorded only when required is not a subset")
         else:
-            self.violated("R5", MOD, cq, "payload", getattr(self, "payload_node", checker),
+            self.violated("R5", MOD, cq, "payload", self.payload_node,
                           "the missing-dependency payload is not `sorted(element.required - providable)` keyed by the "
                           "element's name under the guard `not required <= providable`",
                           witness="the error lists names that exist, or omits the ones that do not")
@@ -480,6 +566,8 @@ class C02(Check):
         for p, a in zip(params, call.args):
             kw[p] = a
         elements = kw.get(params[1]) if len(params) > 1 else None
+        if isinstance(elements, ast.Name):
+            elements = loop_as_listcomp(cc, elements.id) or elements
         if not isinstance(elements, ast.ListComp):
             self.undecided_ob("R7", MOD, q, "elements-argument", call, "elements argument is not a list comprehension")
             return
@@ -539,19 +627,50 @@ class C02(Check):
                               f"initial assignments of self.{fld} are not handed to the sorter")
         # Dependency shape: required=set(v.args); provided = {k} / set(v.outputs) for surrogates
         elt = elements.elt
-        deps = [d for d in ast.walk(elt) if isinstance(d, ast.Call) and call_name(d).endswith("Dependency")]
-        shape_ok = bool(deps)
-        sur_ok = False
-        for d in deps:
-            k = {x.arg: norm(x.value) for x in d.keywords}
-            v = norm(gen.target.elts[1]) if isinstance(gen.target, ast.Tuple) else "v"
-            kk = norm(gen.target.elts[0]) if isinstance(gen.target, ast.Tuple) else "k"
-            if k.get("required") != f"set({v}.args)" or k.get("name") != kk:
+        v = norm(gen.target.elts[1]) if isinstance(gen.target, ast.Tuple) else "v"
+        kk = norm(gen.target.elts[0]) if isinstance(gen.target, ast.Tuple) else "k"
+
+        def sur_test(t: ast.AST):
+            """True: `isinstance(v, AbstractSurrogate)`; False: its negation; None: something else."""
+            pol = True
+            while isinstance(t, ast.UnaryOp) and isinstance(t.op, ast.Not):
+                pol, t = not pol, t.operand
+            if isinstance(t, ast.Call) and norm(t.func) == "isinstance" and len(t.args) == 2 and norm(t.args[0]) == v and norm(t.args[1]).endswith("AbstractSurrogate"):
+                return pol
+            return None
+
+        # cases: (is-surrogate | None for unconditional, name text, required text, provided text)
+        cases: list[tuple[bool | None, str | None, str | None, str | None]] = []
+
+        def dep_cases(e: ast.AST, cond: bool | None) -> bool:
+            if isinstance(e, ast.IfExp):
+                st_ = sur_test(e.test)
+                return st_ is not None and cond is None and dep_cases(e.body, st_) and dep_cases(e.orelse, not st_)
+            if isinstance(e, ast.Call) and call_name(e).endswith("Dependency"):
+                k = {x.arg: x.value for x in e.keywords}
+                prov = k.get("provided")
+                if isinstance(prov, ast.IfExp) and cond is None:
+                    st_ = sur_test(prov.test)
+                    if st_ is None:
+                        return False
+                    for c_, p_ in ((st_, prov.body), (not st_, prov.orelse)):
+                        cases.append((c_, norm(k.get("name")), norm(k.get("required")), norm(p_)))
+                    return True
+                cases.append((cond, norm(k.get("name")), norm(k.get("required")), norm(prov)))
+                return True
+            return False
+
+        shape_ok = dep_cases(elt, None) and bool(cases)
+        for c_, nm_, req_, prov_ in cases:
+            if nm_ != kk or req_ != f"set({v}.args)":
                 shape_ok = False
-            if k.get("provided") == f"set({v}.outputs)":
-                sur_ok = True
-            elif k.get("provided") != "{" + kk + "}":
+            if c_ is True and prov_ != f"set({v}.outputs)":
                 shape_ok = False
+            if c_ is False and prov_ != "{" + kk + "}":
+                shape_ok = False
+            if c_ is None:
+                shape_ok = False  # surrogates provide their outputs, everything else its own name: one unconditional form cannot be both
+        sur_ok = any(c_ is True for c_, *_ in cases) and any(c_ is False for c_, *_ in cases)
         if shape_ok and sur_ok:
             self.holds("R7", MOD, q, "dependency-shape", elt, "required=set(args); provided={name}, or set(outputs) for surrogates")
         else:
